@@ -6,9 +6,9 @@
 set -u
 P=$1; M=$2; shift 2
 CHECKS="${*:-$P}"
-WT=/tmp/wt/$P
+WT=${WT_BASE:-/tmp/wt}/$P
 SRC=$WT/out/$M
-DST=/verif/seeded/$P-$M
+DST=/verif/seeded/$P-${MUT_PREFIX:-}$M
 [ -f "$SRC/patch.diff" ] || { echo "no patch at $SRC"; exit 2; }
 cd "$WT" || exit 2
 git checkout -q -- . 2>/dev/null
